@@ -335,7 +335,8 @@ OnSnap(m, e) ==
       pendPut == {p \in P : m.blk[p].op = "bput"}
       pendGet == {p \in P : m.blk[p].op = "bget"}
       expLevel == m.level + SetSum([p \in P |-> m.blk[p].a[1] - e.amnt[p]], pendPut) - SetSum([p \in P |-> e.amnt[p]], pendGet)
-      bufOk == /\ e.buf.level = expLevel
+      bufOk == /\ e.buf.exact
+               /\ e.buf.level = expLevel
                /\ e.buf.level >= 0
                /\ (m.bufcap >= 0 => e.buf.level <= m.bufcap /\ e.buf.space = m.bufcap - e.buf.level)
       oqOk == /\ e.oq.len = Len(m.oqc)
@@ -384,23 +385,35 @@ Area(seq, tend) ==
               ELSE seq[i][1] * ((IF i = Len(seq) THEN tend ELSE seq[i + 1][2]) - seq[i][2]) + A(i + 1)
   IN A(1)
 
+(* the step function a sequence of <<v, t>> samples defines, in normal form: per distinct time the  *)
+(* last value, and no entry that repeats the value of the entry before it (linear in Len(seq))     *)
+NormalForm(seq) ==
+  LET RECURSIVE N(_, _)
+      N(i, acc) ==
+        IF i > Len(seq) THEN acc
+        ELSE LET s == seq[i]
+                 lastOfTime == i = Len(seq) \/ seq[i + 1][2] # s[2]
+             IN IF ~lastOfTime THEN N(i + 1, acc)
+                ELSE IF acc # <<>> /\ acc[Len(acc)][1] = s[1] THEN N(i + 1, acc)
+                ELSE N(i + 1, Append(acc, s))
+  IN N(1, <<>>)
+
 OnHist(m, e) ==
   LET o == e.o
       tr == m.rec[o].traj
       hs == [i \in 1..Len(e.xs) |-> <<e.xs[i], e.ts[i]>>]
-      times == {tr[i][2] : i \in 1..Len(tr)} \cup {hs[i][2] : i \in 1..Len(hs)}
       tend == IF Len(hs) = 0 THEN 0 ELSE hs[Len(hs)][2]
       mono == \A i \in 1..(Len(hs) - 1) : hs[i][2] <= hs[i + 1][2]
-      same == \A t \in times : t >= m.rec[o].t0 => StepVal(hs, t) = StepVal(tr, t)
+      same == NormalForm(hs) = NormalForm(tr)
       starts == Len(hs) > 0 /\ hs[1][2] = m.rec[o].t0
       avgOk == LET exact == Area(tr, tend) * 1000 IN e.wsum_milli - exact \in -2..2
-      m2 == [m EXCEPT !.rec[o].phase = "closed", !.rec[o].on = FALSE]
+      m2 == [m EXCEPT !.rec[o].phase = "closed", !.rec[o].on = FALSE, !.rec[o].traj = <<>>]
   IN IF m.rec[o].phase \notin {"on", "stopped"} THEN [m |-> m, bad |-> {}]
-     ELSE IF e.n > 200 \/ Len(tr) = 0 THEN [m |-> m2, bad |-> {}]
+     ELSE IF e.n > 5000 \/ Len(tr) = 0 THEN [m |-> m2, bad |-> {}]
      ELSE [m |-> m2,
            bad |-> (IF ~mono THEN Bad("C14", "history-times-decrease") ELSE {})
               \cup (IF ~starts THEN Bad("C14", "history-does-not-start-at-recording-start") ELSE {})
-              \cup (IF mono /\ ~same THEN Bad("C14", "history-differs-from-true-trajectory") ELSE {})
+              \cup (IF mono /\ starts /\ ~same THEN Bad("C14", "history-differs-from-true-trajectory") ELSE {})
               \cup (IF mono /\ same /\ starts /\ ~avgOk THEN Bad("C14", "time-average-not-exact") ELSE {})]
 
 (* ---------------------------------------------------------------------- *)
